@@ -1,9 +1,10 @@
 import Driver.Proto
 import Driver.OpsH
 import Driver.NttH
+import Driver.SalsaH
 namespace Driver
 
-def allHandlers : List (String × Handler) := opsHandlers ++ nttHandlers ++ nttHandlers2 ++ tabHandlers
+def allHandlers : List (String × Handler) := opsHandlers ++ nttHandlers ++ nttHandlers2 ++ tabHandlers ++ salsaHandlers
 
 def findHandler (op : String) : Option Handler := (allHandlers.find? (·.1 == op)).map (·.2)
 
